@@ -28,6 +28,17 @@ Theorem C09_schedule_independent : forall U fuel srv vis exec sigma1 sigma2 rep1
 Proof. exact execute_schedule_independent. Qed.
 Print Assumptions C09_schedule_independent.
 
+(* in particular the class and the EFFECTS (fork links in order, join) of the receipt filed under
+   each invocation do not depend on the interleaving *)
+Theorem C09_effects_schedule_independent : forall U fuel srv vis exec sigma1 sigma2 rep1 rep2 c1 c2,
+  (forall rs, Permutation rs (sigma1 rs)) -> (forall rs, Permutation rs (sigma2 rs)) ->
+  execute_sched U fuel srv vis exec sigma1 = ExecOk rep1 c1 ->
+  execute_sched U fuel srv vis exec sigma2 = ExecOk rep2 c2 ->
+  forall l, option_map rc_fx (rget l rep1) = option_map rc_fx (rget l rep2) /\
+            option_map rc_out (rget l rep1) = option_map rc_out (rget l rep2).
+Proof. exact execute_effects_schedule_independent. Qed.
+Print Assumptions C09_effects_schedule_independent.
+
 (* race freedom of the worker goroutines of server.Execute: ANY access table that obeys the
    lockset discipline has no reachable race, for any number of workers, programs and
    schedules.  coqgen/Tie_LocksExec.v (re-checked on every run against the table extracted
